@@ -10,6 +10,7 @@ let lookup (p : string) : Model.sexp -> Model.sexp =
   | "c03" -> Model.run_c01
   | "c04" -> Model.run_c01
   | "c19" -> Model.run_c19
+  | "c05" -> Model.run_c05
   | "c06" -> Model.run_c06
   | "c13" -> Model.run_c13
   | "c20" -> Model.run_c20
